@@ -12,16 +12,17 @@ ProgOf(e) ==
   [x \in {e.rules[i].name : i \in DOMAIN e.rules} |->
       e.rules[CHOOSE i \in DOMAIN e.rules : e.rules[i].name = x].ops]
 
-TraceInit == prog = <<>> /\ ex = <<>> /\ inj = <<>> /\ lh = <<>> /\ l = 1
+TraceInit == prog = <<>> /\ ex = <<>> /\ inj = <<>> /\ pin = <<>> /\ lh = <<>> /\ l = 1
 
 TSession == IsEvent("session") /\ UNCHANGED lvars
 TBegin   == IsEvent("lbegin") /\ LBeginCore(ProgOf(Ev)) /\ UNCHANGED lh
 TStart   == IsEvent("estart") /\ EStartCore(Ev.e, Ev.r, Ev.q) /\ UNCHANGED lh
 TOp      == IsEvent("eop") /\ EOpCore(Ev.e, Ev.i, Ev.val) /\ UNCHANGED lh
 TEnd     == IsEvent("eend") /\ EEndCore(Ev.e) /\ UNCHANGED lh
-TReturn  == IsEvent("lreturn") /\ ~Ev.panic /\ LReturnCore(Ev.q, Ev.err) /\ UNCHANGED lh
+TReturn  == IsEvent("lreturn") /\ ~Ev.panic /\ LReturnCore(Ev.q, Ev.err, Ev.gpv) /\ UNCHANGED lh
+TPin     == IsEvent("lpin") /\ LPinCore(Ev.q) /\ UNCHANGED lh
 
-TraceProper == TSession \/ TBegin \/ TStart \/ TOp \/ TEnd \/ TReturn
+TraceProper == TSession \/ TBegin \/ TStart \/ TOp \/ TEnd \/ TReturn \/ TPin
 
 NextSession(i) ==
   IF \E j \in (i+1)..Len(Trace) : Trace[j].ev = "session"
@@ -35,7 +36,7 @@ TraceSkip ==
   /\ ~ENABLED TraceProper
   /\ TLCSet(2, Append(TLCGet(2), l))
   /\ l' = IF Trace[l].ev = "session" THEN l + 1 ELSE NextSession(l)
-  /\ prog' = <<>> /\ ex' = <<>> /\ inj' = <<>> /\ UNCHANGED lh
+  /\ prog' = <<>> /\ ex' = <<>> /\ inj' = <<>> /\ pin' = <<>> /\ UNCHANGED lh
 
 TraceNext == TraceProper \/ TraceSkip
 TraceSpec == TraceInit /\ [][TraceNext]_<<lvars, l>>
